@@ -115,6 +115,27 @@ Theorem C34_provider_spec : forall d q rec_ok fetch now l d',
 Proof. intros. eapply get_chains_spec; eauto. Qed.
 Print Assumptions C34_provider_spec.
 
+(** With AllowInactive the only exception is what the DB already holds for the
+    query: when it holds nothing, every chain handed out (i.e. fetched from the
+    network) is subject to the same rule. *)
+Theorem C34_provider_allow_inactive_empty_db : forall d q rec_ok fetch now l d',
+  get_chains d q true rec_ok fetch now = (Some l, d') -> db_chains d q = [] ->
+  forall ch, In ch l -> spec_provided_ok (d_trcs d) (q_isd q) now ch = true.
+Proof. intros d q rk f now l d' G E ch Hin. eapply get_chains_spec_gen; eauto. Qed.
+Print Assumptions C34_provider_allow_inactive_empty_db.
+
+(** ... and when it holds something, exactly that is handed out, unverified
+    (the documented AllowInactive behaviour, outside the property). *)
+Theorem C34_provider_allow_inactive_db : forall d q rec_ok fetch now,
+  q_isd q <> 0 -> q_as q <> 0 -> db_chains d q <> [] ->
+  get_chains d q true rec_ok fetch now = (Some (db_chains d q), d).
+Proof.
+  intros d q rk f now Hi Ha Hne. unfold get_chains.
+  apply N.eqb_neq in Hi, Ha. rewrite Hi, Ha. cbn [orb andb].
+  destruct (db_chains d q); [contradiction | reflexivity].
+Qed.
+Print Assumptions C34_provider_allow_inactive_db.
+
 (** Nothing is handed out when the latest TRC is absent or not valid now. *)
 Theorem C34_provider_inactive : forall d q rec_ok fetch now,
   match latest_trc (d_trcs d) (q_isd q) with
@@ -126,6 +147,25 @@ Proof.
   destruct (trc_contains t now) eqn:E; auto. apply contains_iff in E. contradiction.
 Qed.
 Print Assumptions C34_provider_inactive.
+
+(** Chains loaded from disk (LoadChains) enter the trust DB under the same rule:
+    a valid chain, valid now, that verifies against the latest TRC valid now or
+    against its predecessor during the grace period; nothing is removed and the
+    TRCs are untouched. *)
+Theorem C34_load_chains : forall now files d e l i d',
+  load_chains now files d [] [] = (e, l, i, d') ->
+  d_trcs d' = d_trcs d
+  /\ (forall ch, In ch (d_chains d) -> In ch (d_chains d'))
+  /\ forall ch, In ch (d_chains d') ->
+       In ch (d_chains d) \/ (In ch (file_chains files) /\ spec_loaded_ok (d_trcs d) now ch = true).
+Proof. intros. eapply load_chains_spec; eauto. Qed.
+Print Assumptions C34_load_chains.
+
+Theorem C34_oracle_load_chains_holds_on_model : forall now files d,
+  let d' := snd (load_chains now files d [] []) in
+  load_chains_oracle now d files (map chain_ids (d_chains d')) = true.
+Proof. exact load_chains_oracle_model. Qed.
+Print Assumptions C34_oracle_load_chains_holds_on_model.
 
 (** The oracles evaluated on the implementation's observations hold on the model. *)
 Theorem C34_oracle_verify_holds_on_model : forall ch trcs now,
